@@ -175,14 +175,36 @@ class TrHook:
             return self.terminates(last.body) and self.terminates(last.orelse)
         return False
 
-    def block(self, stmts, ret: bool) -> str:
-        """`ret`: the block must end the function (type `HM Json`); otherwise it falls through (type `HM Unit`)."""
+    def assigned(self, stmts) -> list:
+        """Locals (re)bound somewhere inside these statements, in order of first binding."""
+        out = []
+        for s in stmts:
+            for n in ast.walk(s):
+                tg = []
+                if isinstance(n, ast.Assign):
+                    tg = n.targets
+                elif isinstance(n, (ast.AnnAssign, ast.AugAssign, ast.NamedExpr)):
+                    tg = [n.target]
+                for t in tg:
+                    for m in ast.walk(t):
+                        if isinstance(m, ast.Name) and isinstance(m.ctx, ast.Store) and m.id not in out:
+                            out.append(m.id)
+        return out
+
+    def block(self, stmts, ret: bool, result: str | None = None) -> str:
+        """`ret`: the block must end the function (type `HM Json`); otherwise it falls through: type `HM Unit`, or, with
+        `result` (a local the block rebinds), the type of that local, whose value at the end of the block is yielded."""
         stmts = strip(stmts)
         if not stmts:
             if ret:
                 raise Untranslatable("falls off the end (returns None)")
+            if result is not None:
+                if result not in self.env:
+                    raise Untranslatable(f"local {result} may be unbound")
+                return f"(LN.pure {self.env[result][0]})"
             return "LN.skip"
         s, rest = stmts[0], stmts[1:]
+        last = not rest and not ret and result is None
         if isinstance(s, ast.Return):
             if not ret or rest:
                 raise Untranslatable("return in the middle")
@@ -190,7 +212,7 @@ class TrHook:
                 raise Untranslatable("returns something else than the object passed in")
             return "LN.retData"
         if isinstance(s, ast.Pass):
-            return self.block(rest, ret)
+            return self.block(rest, ret, result)
         if isinstance(s, (ast.Assign, ast.AnnAssign)):
             if isinstance(s, ast.Assign):
                 if len(s.targets) != 1:
@@ -199,7 +221,7 @@ class TrHook:
             else:
                 target, value = s.target, s.value
                 if value is None:
-                    return self.block(rest, ret)
+                    return self.block(rest, ret, result)
             if isinstance(target, ast.Subscript) and self.is_data(target.value):
                 # Python evaluates the right-hand side first, then the subscript store
                 pre, t, ty = self.expr(value)
@@ -207,20 +229,20 @@ class TrHook:
                     raise Untranslatable("stores a condition")
                 k = self.key(target.slice)
                 store = f"(LN.setItem {k} {t})"
-                if not rest and not ret:
+                if last:
                     return self.wrap(pre, store)
-                return self.wrap(pre, f"(LN.seq {store}\n  {self.block(rest, ret)})")
+                return self.wrap(pre, f"(LN.seq {store}\n  {self.block(rest, ret, result)})")
             if isinstance(target, ast.Name) and target.id != self.data:
                 pre, t, ty = self.expr(value)
                 self.env[target.id] = (t, ty)
-                return self.wrap(pre, self.block(rest, ret))
+                return self.wrap(pre, self.block(rest, ret, result))
             raise Untranslatable("assignment to " + ast.unparse(target)[:60])
         if isinstance(s, ast.Expr):
             pre, _t, _ty = self.expr(s.value)
             if not pre:
-                return self.block(rest, ret)
+                return self.block(rest, ret, result)
             pre = pre[:-1] + [("_", pre[-1][1])]
-            return self.wrap(pre, self.block(rest, ret))
+            return self.wrap(pre, self.block(rest, ret, result))
         if isinstance(s, ast.If):
             pre, c = self.cond(s.test)
             saved = dict(self.env)
@@ -233,14 +255,32 @@ class TrHook:
                 b = self.block(s.orelse, True) if t_else else self.block(list(s.orelse) + list(rest), True)
                 self.env = saved
                 return self.wrap(pre, f"(if {c} then {a}\n  else {b})")
+            # a local rebound inside the branches is what the `if` yields (one such local at most)
+            # (a local first bound inside a branch stays local to it: using it afterwards is outside the subset)
+            names = [n for n in self.assigned(list(s.body) + list(s.orelse)) if n in saved]
+            if len(names) > 1:
+                raise Untranslatable("an `if` rebinds several locals: " + ", ".join(names))
+            if names:
+                name = names[0]
+                a = self.block(s.body, False, name)
+                ty_a = self.env[name][1]
+                self.env = dict(saved)
+                b = self.block(s.orelse, False, name)
+                ty_b = self.env[name][1]
+                self.env = saved
+                if ty_a != ty_b:
+                    raise Untranslatable(f"local {name} of two kinds")
+                v = self.fresh("x" if ty_a == "json" else "c")
+                self.env[name] = (v, ty_a)
+                return self.wrap(pre, f"(LN.bind (if {c} then {a} else {b}) fun {v} =>\n  {self.block(rest, ret, result)})")
             a = self.block(s.body, False)
             self.env = dict(saved)
             b = self.block(s.orelse, False)
-            self.env = saved                 # a local bound in one branch only is not visible afterwards
+            self.env = saved
             branch = f"(if {c} then {a} else {b})"
-            if not rest and not ret:
+            if last:
                 return self.wrap(pre, branch)
-            return self.wrap(pre, f"(LN.seq {branch}\n  {self.block(rest, ret)})")
+            return self.wrap(pre, f"(LN.seq {branch}\n  {self.block(rest, ret, result)})")
         raise Untranslatable("statement " + ast.unparse(s)[:80])
 
 
